@@ -48,7 +48,7 @@ add("C13", True, "E1-enumerator + E2 cycles", "exhaustive enumeration of small g
 add("C14", True, "E1-enumerator", "exhaustive enumeration of legal line orders, junk placements (0,1,2 insertions), number formats, separators and line endings vs an independent tokenizer reference; all six loader entry points",
     "Every generated file is loaded by the real readers and compared structurally with the reference parse; warnings counted per unsupported line.",
     "reference tokenizer vf/ref/g2o.py trusted", "DESIGN.md 4 C14")
-add("C15", False, "E2-explorer", "explicit-state BFS to fixpoint over the query alphabet (~30 queries) from several base states; state = bitwise digest of every reachable array/flag/id/list order",
+add("C15", True, "E2-explorer", "explicit-state BFS to fixpoint over the query alphabet (~30 queries) from several base states; state = bitwise digest of every reachable array/flag/id/list order",
     "BFS closes (fixpoint) so all interleavings of any length are covered; observable snapshot must be unchanged by every query and each query's value must be path-independent; optimize may change only free poses (+ first fixed flag).",
     "generic __dict__ walker defines 'all numeric state'", "DESIGN.md 4 C15")
 add("C16", False, "E1-enumerator", "exhaustive enumeration programs (14 custom error functions) x pose alphabets for the numerical Jacobian, and graph families for optimum equality with 5-point-Jacobian twins",
